@@ -118,6 +118,72 @@ pub fn model_ok(input: &[u8], k: u8, invert: bool, rec: &Rec<'_>, complete: bool
     true
 }
 
+/// The grep model as a reference implementation (C03): the exact event sequence for a search that runs to
+/// completion -- matches are the selected lines, context lines are the unselected lines within `before`
+/// lines before / `after` lines after a selected line, a separator exactly between non-adjacent groups
+/// (only when context is enabled), true offsets and 1-based line numbers, then finish(len).
+pub fn expected(input: &[u8], k: u8, invert: bool, after: usize, before: usize) -> Vec<Ev> {
+    let mut lines: Vec<(usize, usize, bool)> = Vec::new();
+    let mut s = 0;
+    while s < input.len() {
+        let mut e = s; let mut has = false;
+        while e < input.len() && input[e] != b'\n' { if input[e] == k { has = true; } e += 1; }
+        if e < input.len() { e += 1; }
+        lines.push((s, e, has != invert));
+        s = e;
+    }
+    let n = lines.len();
+    let mut out = Vec::new();
+    let mut last: Option<usize> = None;
+    for i in 0..n {
+        let sel = lines[i].2;
+        let is_before = !sel && (1..=before).any(|d| i + d < n && lines[i + d].2 && (1..d).all(|q| !lines[i + q].2 || true));
+        let is_after = !sel && (1..=after).any(|d| i >= d && lines[i - d].2);
+        if !(sel || is_before || is_after) { continue; }
+        if let Some(p) = last { if p + 1 != i && (after > 0 || before > 0) { out.push(Ev { kind: 5, off: 0, len: 0, ln: 0 }); } }
+        last = Some(i);
+        // an unselected line that is both after- and before-context is delivered as after-context
+        let kind = if sel { 1 } else if is_after { 3 } else { 2 };
+        out.push(Ev { kind, off: lines[i].0 as u64, len: lines[i].1 - lines[i].0, ln: i as u64 + 1 });
+    }
+    out.push(Ev { kind: 6, off: input.len() as u64, len: 0, ln: 0 });
+    out
+}
+
+/// C03 exactness: a completed slice search delivers exactly the reference sequence
+pub fn slice_matches_reference(input: &[u8], k: u8, invert: bool, after: usize, before: usize) -> bool {
+    let mut searcher = SearcherBuilder::new().line_number(true).invert_match(invert)
+        .after_context(after).before_context(before).build();
+    let mut rec = Rec::new(input, MAXEV * 4);
+    let r = searcher.search_slice(ByteMatcher(k), input, &mut rec);
+    let exp = expected(input, k, invert, after, before);
+    if exp.len() > MAXEV { return true; } // recording capacity exceeded: not compared
+    r.is_ok() && rec.n + 1 == exp.len() && rec.evs[..exp.len()] == exp[..]
+}
+
+/// a reader that hands out at most `chunk` bytes per read
+pub struct Chunked<'a> { pub data: &'a [u8], pub pos: usize, pub chunk: usize }
+impl<'a> std::io::Read for Chunked<'a> {
+    fn read(&mut self, buf: &mut [u8]) -> std::io::Result<usize> {
+        let n = core::cmp::min(core::cmp::min(self.chunk, buf.len()), self.data.len() - self.pos);
+        buf[..n].copy_from_slice(&self.data[self.pos..self.pos + n]);
+        self.pos += n;
+        Ok(n)
+    }
+}
+
+/// C02: the incremental reader strategy (any read fragmentation) delivers exactly what the slice strategy delivers
+pub fn reader_agrees(input: &[u8], k: u8, invert: bool, after: usize, before: usize, chunk: usize) -> bool {
+    let mk = || SearcherBuilder::new().line_number(true).invert_match(invert)
+        .after_context(after).before_context(before).build();
+    let mut a = Rec::new(input, MAXEV);
+    let ra = mk().search_slice(ByteMatcher(k), input, &mut a);
+    let mut b = Rec::new(input, MAXEV);
+    let rb = mk().search_reader(ByteMatcher(k), Chunked { data: input, pos: 0, chunk }, &mut b);
+    ra.is_ok() && rb.is_ok() && a.n == b.n && a.finished == b.finished
+        && a.evs[..core::cmp::min(a.n + 1, MAXEV)] == b.evs[..core::cmp::min(b.n + 1, MAXEV)]
+}
+
 pub fn run_slice(input: &[u8], k: u8, invert: bool, after: usize, before: usize, refuse_at: usize) -> bool {
     let mut searcher = SearcherBuilder::new().line_number(true).invert_match(invert)
         .after_context(after).before_context(before).build();
@@ -170,7 +236,19 @@ pub fn replay_main() -> i32 {
     let inv = std::env::var("VERIF_REPLAY_INVERT").map(|v| v != "0").unwrap_or(false);
     let r: usize = std::env::var("VERIF_REPLAY_REFUSE").ok().and_then(|v| v.parse().ok()).unwrap_or(MAXEV);
     let ctx: usize = std::env::var("VERIF_REPLAY_CTX").ok().and_then(|v| v.parse().ok()).unwrap_or(0);
-    if run_slice(&bytes, b'x', inv, ctx, ctx, r) {
+    let after: usize = std::env::var("VERIF_REPLAY_AFTER").ok().and_then(|v| v.parse().ok()).unwrap_or(ctx);
+    let before: usize = std::env::var("VERIF_REPLAY_BEFORE").ok().and_then(|v| v.parse().ok()).unwrap_or(ctx);
+    if std::env::var("VERIF_REPLAY_REFERENCE").is_ok() {
+        let ok = slice_matches_reference(&bytes, b'x', inv, after, before);
+        println!("replay: slice search of {:?} (invert={}, after={}, before={}) vs the grep reference model: {}", bytes, inv, after, before, if ok { "equal" } else { "DIFFERENT" });
+        return if ok { 0 } else { 1 };
+    }
+    if let Some(chunk) = std::env::var("VERIF_REPLAY_CHUNK").ok().and_then(|v| v.parse::<usize>().ok()) {
+        let ok = reader_agrees(&bytes, b'x', inv, after, before, chunk);
+        println!("replay: reader (chunk {}) vs slice on {:?} (invert={}, after={}, before={}): {}", chunk, bytes, inv, after, before, if ok { "agree" } else { "DISAGREE" });
+        return if ok { 0 } else { 1 };
+    }
+    if run_slice(&bytes, b'x', inv, after, before, r) {
         println!("replay: the grep model holds for {:?} (invert={}, context={}, refusal at event {})", bytes, inv, ctx, r);
         0
     } else {
@@ -179,14 +257,42 @@ pub fn replay_main() -> i32 {
     }
 }
 
-/// native exhaustive cross-check over a small alphabet (debugging aid for the harness author, not a check)
+/// native bounded enumeration: every input over {x, \n, a} up to 5 bytes, invert on/off, before/after
+/// context 0..1 each, sink refusal at event 0..3 or never, reader chunk sizes 1..2: the grep model holds and
+/// the reader strategy agrees with the slice strategy.  Prints the first failing case.
 pub fn exhaustive_small() -> bool {
     let alpha = [b'x', b'\n', b'a'];
-    for a in alpha { for b in alpha { for c in alpha { for d in alpha {
-        let t = [a, b, c, d];
-        for n in 0..=4 { for inv in [false, true] { for ctx in 0..2usize { for r in [0usize, 1, 2, MAXEV] {
-            if !run_slice(&t[..n], b'x', inv, ctx, ctx, r) { println!("{:?} n={} inv={} ctx={} r={}", &t[..n], n, inv, ctx, r); return false; }
-        }}}}
-    }}}}
+    let mut t = [0u8; 5];
+    for n in 0..=5usize {
+        let total = 3usize.pow(n as u32);
+        for code in 0..total {
+            let mut c = code;
+            for i in 0..n { t[i] = alpha[c % 3]; c /= 3; }
+            for inv in [false, true] { for after in 0..2usize { for before in 0..2usize {
+                for r in [0usize, 1, 2, 3, MAXEV] {
+                    if !run_slice(&t[..n], b'x', inv, after, before, r) {
+                        println!("FAILING CASE model input={:?} invert={} after={} before={} refuse_at={}", &t[..n], inv, after, before, r);
+                        println!("VERIF_REPLAY_HEX={} VERIF_REPLAY_INVERT={} VERIF_REPLAY_AFTER={} VERIF_REPLAY_BEFORE={} VERIF_REPLAY_REFUSE={}",
+                            t[..n].iter().map(|b| format!("{:02x}", b)).collect::<String>(), inv as u8, after, before, r);
+                        return false;
+                    }
+                }
+                if !slice_matches_reference(&t[..n], b'x', inv, after, before) {
+                    println!("FAILING CASE reference-model input={:?} invert={} after={} before={}", &t[..n], inv, after, before);
+                    println!("VERIF_REPLAY_HEX={} VERIF_REPLAY_INVERT={} VERIF_REPLAY_AFTER={} VERIF_REPLAY_BEFORE={} VERIF_REPLAY_REFERENCE=1",
+                        t[..n].iter().map(|b| format!("{:02x}", b)).collect::<String>(), inv as u8, after, before);
+                    return false;
+                }
+                for chunk in 1..3usize {
+                    if !reader_agrees(&t[..n], b'x', inv, after, before, chunk) {
+                        println!("FAILING CASE reader-vs-slice input={:?} invert={} after={} before={} chunk={}", &t[..n], inv, after, before, chunk);
+                        println!("VERIF_REPLAY_HEX={} VERIF_REPLAY_INVERT={} VERIF_REPLAY_AFTER={} VERIF_REPLAY_BEFORE={} VERIF_REPLAY_CHUNK={}",
+                            t[..n].iter().map(|b| format!("{:02x}", b)).collect::<String>(), inv as u8, after, before, chunk);
+                        return false;
+                    }
+                }
+            }}}
+        }
+    }
     true
 }
